@@ -1,8 +1,106 @@
-import PestModel.Model.LineCol
-/-! # C10 — placeholder until the proofs land. -/
+import PestModel.Model.LineColSpec
+import PestModel.Lemmas.LineCol
+/-!
+# C10 — line/column arithmetic and error rendering are correct for all text
+
+Property theorems only; helper lemmas in `PestModel/Lemmas/LineCol.lean`.
+`PestModel.LineCol` models `position.rs` / `span.rs` / `line_index.rs` / `error.rs` with every Rust
+panic site an explicit `none`; the specification side (`lineColSpec`, `specLineOf`,
+`specLinesSpan`) are counting definitions.
+-/
 namespace PestModel.C10
 open PestModel.LineCol
 
-theorem smoke : isBoundary [] 0 = true := rfl
+/-- `splitAt?` characterises UTF-8 boundaries: it succeeds exactly on the byte lengths of prefixes. -/
+theorem splitAt_iff (s pre post : Str) (off : Nat) :
+    splitAt? s off = some (pre, post) ↔ s = pre ++ post ∧ bLen pre = off := by
+  exact LineCol.splitAt_iff s pre post off
+
+/-- `Position::line_col` equals the counting definition at every boundary offset, and panics
+(`none`) exactly when the offset is not a boundary inside the input. The `\r\n` branch never
+changes the answer. -/
+theorem lineCol_spec (s : Str) (off : Nat) : lineCol s off = lineColSpec s off := by
+  exact lineCol_eq_spec s off
+
+/-- `Pair::line_col`: a `LineIndex` built from the prefix of the input up to byte `k` answers like
+the counting definition for every boundary offset `off ≤ k`. -/
+theorem lineIndex_eq (s text rest : Str) (off k : Nat) (hk : splitAt? s k = some (text, rest))
+    (hoff : isBoundary s off = true) (hle : off ≤ k) :
+    lineIndexLineCol (lineOffsets text) s off = lineColSpec s off := by
+  exact lineIndex_eq_spec s text rest off k hk hoff hle
+
+/-- `line_of` returns the maximal newline-terminated segment containing the offset
+(the `pos == len - 1` shortcut is harmless), and never panics on a boundary. -/
+theorem lineOf_spec (s pre post : Str) (off : Nat) (h : splitAt? s off = some (pre, post)) :
+    lineOf s off = some (specLineOf pre post) := by
+  obtain ⟨rfl, rfl⟩ := splitAt_some h
+  exact lineOf_boundary pre post
+
+/-- `Span::new` succeeds exactly on ordered boundary offsets. -/
+theorem spanNew_iff (s : Str) (a b : Nat) :
+    spanNew s a b = true ↔ a ≤ b ∧ isBoundary s a = true ∧ isBoundary s b = true := by
+  exact LineCol.spanNew_iff s a b
+
+/-- `lines_span()` yields the consecutive non-empty input lines that meet the closed range. -/
+theorem linesSpan_spec (s : Str) (a b : Nat) (hab : a ≤ b) (ha : isBoundary s a = true)
+    (hb : isBoundary s b = true) : linesSpan s a b = specLinesSpan s a b := by
+  have _ := hb
+  exact linesSpan_eq_spec s a b hab ha
+
+/-- Rendering an error built from any boundary position never panics. -/
+theorem render_total_pos (s msg : Str) (off : Nat) (h : isBoundary s off = true) :
+    ∃ e out, newFromPos s off msg = some e ∧ e.format = some out := by
+  obtain ⟨pre, post, rfl, rfl⟩ := (isBoundary_iff _ _).1 h
+  obtain ⟨k, hk⟩ : ∃ k, (lineColSpecChars pre).2 = k + 1 := ⟨_, Nat.add_comm 1 _⟩
+  obtain ⟨e, he, hl, -, -⟩ := newFromPos_boundary' pre post msg
+  have hu := underline_pos e (lineColSpecChars pre).1 k (by rw [← hk]; exact hl)
+  exact ⟨e, _, he, format_pos e _ _ hl hu⟩
+
+/-- Rendering an error built from any span (ordered boundary offsets) never panics: in particular
+`start - 1`, `end - start` and `end.0 - start.0` never underflow. -/
+theorem render_total_span (s msg : Str) (a b : Nat) (hab : a ≤ b) (ha : isBoundary s a = true)
+    (hb : isBoundary s b = true) :
+    ∃ e out, newFromSpan s a b msg = some e ∧ e.format = some out := by
+  obtain ⟨preA, postA, rfl, rfl⟩ := (isBoundary_iff _ _).1 ha
+  obtain ⟨preB, postB, hB, rfl⟩ := (isBoundary_iff _ _).1 hb
+  obtain ⟨m, rfl, rfl⟩ := prefix_of_bLen_le hB hab
+  obtain ⟨e, sl, sc, el, ec, he, hlc, hsc, hec, hcont⟩ := newFromSpan_boundary preA m postB msg
+  obtain ⟨out, hout⟩ := format_span e sl sc el ec hlc hsc hec hcont
+  refine ⟨e, out, ?_, hout⟩
+  rw [← he, bLen_append, List.append_assoc]
+
+/-- What a rendered position error shows: the line/column of the counting definition, the text of
+that line (CR/LF stripped, or visualised when the position is at a CR/LF), and an underline whose
+marker `^---` starts exactly under the reported column, preceded only by blanks/tabs. -/
+theorem render_shows_pos (s pre post msg : Str) (off : Nat) (h : splitAt? s off = some (pre, post)) :
+    ∃ e u, newFromPos s off msg = some e ∧
+      e.lineCol = .pos (lineColSpecChars pre) ∧
+      (e.line = stripCrLf (specLineOf pre post) ∨ e.line = visualizeWs (specLineOf pre post)) ∧
+      e.underline = some u ∧
+      u.length = (lineColSpecChars pre).2 - 1 + 4 ∧
+      u.drop ((lineColSpecChars pre).2 - 1) = "^---".toList ∧
+      (∀ c ∈ u.take ((lineColSpecChars pre).2 - 1), c = ' ' ∨ c = '\t') ∧
+      e.format = some (
+        e.spacing ++ "--> ".toList ++ natStr (lineColSpecChars pre).1 ++ [':'] ++
+          natStr (lineColSpecChars pre).2 ++ ['\n'] ++
+        e.spacing ++ " |\n".toList ++
+        natStr (lineColSpecChars pre).1 ++ " | ".toList ++ e.line ++ ['\n'] ++
+        e.spacing ++ " | ".toList ++ u ++ ['\n'] ++
+        e.spacing ++ " |\n".toList ++
+        e.spacing ++ " = ".toList ++ msg) := by
+  obtain ⟨rfl, rfl⟩ := splitAt_some h
+  obtain ⟨k, hk⟩ : ∃ k, (lineColSpecChars pre).2 = k + 1 := ⟨_, Nat.add_comm 1 _⟩
+  obtain ⟨e, he, hl, hline, hmsg⟩ := newFromPos_boundary' pre post msg
+  have hu := underline_pos e (lineColSpecChars pre).1 k (by rw [← hk]; exact hl)
+  refine ⟨e, ulPad e.line k ++ "^---".toList, he, hl, hline, hu, ?_, ?_, ?_, ?_⟩
+  · simp [hk, ulPad_length]
+  · rw [hk, Nat.add_sub_cancel, List.drop_left' (ulPad_length _ _)]
+  · rw [hk, Nat.add_sub_cancel, List.take_left' (ulPad_length _ _)]
+    exact ulPad_chars _ _
+  · rw [← hmsg]; exact format_pos e _ _ hl hu
+
+/-- Non-vacuity: a concrete multi-line, multi-byte input where the interesting branches are hit. -/
+example : lineColSpec "a\r\né嗨\nb".toList 8 = some (2, 3) := by
+  simp [lineColSpec, splitAt?, lineColSpecChars, cLen, Char.utf8Size]
 
 end PestModel.C10
